@@ -509,11 +509,11 @@ V("C01", "pdb-atom-line-bfactor-width", "mdtraj/formats/pdb/pdbfile.py", '"ATOM 
 V("C01", "pdb-atom-line-resseq-shift", "mdtraj/formats/pdb/pdbfile.py", '"ATOM  %5d %-4s %3s %1s%4d    %s%s%s  1.00 %5s      %-4s%2s  "', '"ATOM  %5d %-4s %3s %1s %4d   %s%s%s  1.00 %5s      %-4s%2s  "', "C01-R4")
 V("C01", "mdcrd-writer-9.3", "mdtraj/formats/mdcrd.py", '                out = "%8.3f" % coord', '                out = "%9.3f" % coord', "C01-R4", "MDCRDTrajectoryFile.write")
 V("C01", "rst7-reader-second-atom-offset", "mdtraj/formats/amberrst.py", "for j in range(36, 72, 12)]", "for j in range(37, 73, 12)]", "C01-R4", "AmberRestartFile._parse")
-V("C01", "gro-box-writer-swaps-offdiag", "mdtraj/formats/gro.py", 'f"{box[0, 1]:10.5f}{box[0, 2]:10.5f}{box[1, 0]:10.5f}"', 'f"{box[1, 0]:10.5f}{box[0, 2]:10.5f}{box[0, 1]:10.5f}"', "C01-R5")
-V("C01", "gro-box-reader-transposed", "mdtraj/formats/gro.py", "                [box[0], box[3], box[4]],\n                [box[5], box[1], box[6]],", "                [box[0], box[5], box[4]],\n                [box[3], box[1], box[6]],", "C01-R5")
+V("C01", "gro-box-writer-swaps-offdiag", "mdtraj/formats/gro.py", 'f"{box[0, 1]:10.5f}{box[0, 2]:10.5f}{box[1, 0]:10.5f}"', 'f"{box[1, 0]:10.5f}{box[0, 2]:10.5f}{box[0, 1]:10.5f}"', "C01-R8")
+V("C01", "gro-box-reader-transposed", "mdtraj/formats/gro.py", "                [box[0], box[3], box[4]],\n                [box[5], box[1], box[6]],", "                [box[0], box[5], box[4]],\n                [box[3], box[1], box[6]],", "C01-R8")
 V("C01", "dcd-write-alpha-gamma-swapped", "mdtraj/formats/dcd/dcd.pyx", "                self.timestep.alpha = cell_angles[i, 0]\n                self.timestep.beta  = cell_angles[i, 1]\n                self.timestep.gamma = cell_angles[i, 2]",
   "                self.timestep.alpha = cell_angles[i, 2]\n                self.timestep.beta  = cell_angles[i, 1]\n                self.timestep.gamma = cell_angles[i, 0]", "C01-R5", "DCDTrajectoryFile._write")
-V("C01", "xyz-writer-yx-order", "mdtraj/formats/xyzfile.py", 'f"{types[j]} {coord[0]:8.3f} {coord[1]:8.3f} {coord[2]:8.3f}\\n"', 'f"{types[j]} {coord[1]:8.3f} {coord[0]:8.3f} {coord[2]:8.3f}\\n"', "C01-R5")
+V("C01", "xyz-writer-yx-order", "mdtraj/formats/xyzfile.py", 'f"{types[j]} {coord[0]:8.3f} {coord[1]:8.3f} {coord[2]:8.3f}\\n"', 'f"{types[j]} {coord[1]:8.3f} {coord[0]:8.3f} {coord[2]:8.3f}\\n"', "C01-R8")
 V("C01", "netcdfrst-time-first-frame", T, "                        coordinates=coordinates[i],\n                        time=self.time[i],\n                        cell_lengths=lengths[i],\n                        cell_angles=self.unitcell_angles[i],\n                    )\n\n    def save_amberrst7",
   "                        coordinates=coordinates[i],\n                        time=self.time[0],\n                        cell_lengths=lengths[i],\n                        cell_angles=self.unitcell_angles[i],\n                    )\n\n    def save_amberrst7", "C01-R6", "Trajectory.save_netcdfrst")
 V("C01", "pdb-frames-all-first-coords", T, "                    f.write(\n                        in_units_of(\n                            self._xyz[i],\n                            Trajectory._distance_unit,\n                            f.distance_unit,\n                        ),\n                        self.topology,\n                        modelIndex=i,\n                        bfactors=bfactors[i],\n                        ter=ter,",
